@@ -629,7 +629,7 @@ func c20SettingPrecedence(c *Ctx, ix *PkgIndex, sp, getenvName string) {
 					continue
 				}
 				inspectNoLit(x.N, func(n ast.Node) bool {
-					if call, ok := n.(*ast.CallExpr); ok && isCallTo(info, call, "os.Getenv") {
+					if call, ok := n.(*ast.CallExpr); ok && (isCallTo(info, call, "os.Getenv") || isCallTo(info, call, "os.LookupEnv")) {
 						reads = true
 					}
 					return true
@@ -639,6 +639,7 @@ func c20SettingPrecedence(c *Ctx, ix *PkgIndex, sp, getenvName string) {
 			// s.Set = true or by returning newSetting(v) / a setting literal with Set: true
 			stores := g.Match(func(n ast.Node) bool { return producesSetting(ix, n, fSet) })
 			leaves := len(stores) >= 1
+			emptyOK := true
 			for _, st := range stores {
 				s, _ := g.Reach([]*GNode{st}, func(y *GNode) bool {
 					return y.N == nil && y.Blk != nil && (y.Blk.Kind.String() == "RangeDone")
@@ -656,7 +657,32 @@ func c20SettingPrecedence(c *Ctx, ix *PkgIndex, sp, getenvName string) {
 					})
 				})
 				leaves = leaves && d
+				// a variable that is set to the empty string provides nothing (the OTLP exporter specification treats it as unset):
+				// the converted value is stored only for a non-empty string, so the walk goes on to the generic variable
+				ne, _ := g.DominatedByEdges(st, func(e *GEdge) bool {
+					return edgeImplies(e, func(cnd ast.Expr, pol int) bool {
+						l, op, r, ok := cmpNorm(cnd, pol)
+						if !ok || op != token.NEQ {
+							return false
+						}
+						for _, pr := range [][2]ast.Expr{{l, r}, {r, l}} {
+							if sv, isS := constString(info, pr[1]); isS && sv == "" {
+								if tv, has := info.Types[pr[0]]; has {
+									if b, isB := tv.Type.Underlying().(*types.Basic); isB && b.Info()&types.IsString != 0 {
+										return true
+									}
+								}
+							}
+						}
+						return false
+					})
+				})
+				if !ne {
+					emptyOK = false
+				}
 			}
+			c.Check(emptyOK, "R1", sp+"|getenv|a variable set to the empty string is skipped", at(ix.M, f.Pos()), "the converted value is stored only for a non-empty string",
+				"a signal-specific variable that is set but empty is handed to the converter and can win over the generic variable (an empty compression value selects no compression, an empty endpoint an empty host)")
 			c.Check(!reads && leaves, "R1", sp+"|getenv|an explicit option wins; the first valid variable wins; invalid values are skipped", at(ix.M, f.Pos()), "s.Set short-circuits; break after the first success; store dominated by err == nil",
 				"environment resolution semantics changed (env read although an option is set: "+boolStr(reads)+")")
 		}
@@ -1232,10 +1258,34 @@ func c20SDK(c *Ctx) {
 		return false
 	}
 	envBefore(tx, "NewBatchSpanProcessor", isPkgCall("sdk/internal/env"), optCall)
-	envBefore(tx, "NewTracerProvider", func(info *types.Info, call *ast.CallExpr) bool {
+	// the tracer provider reads the environment in two places: the sampler/exporter variables (applyTracerProviderEnvConfigs) and
+	// the span limits (NewSpanLimits) — directly or inside a helper of the package the constructor calls
+	var readsTPEnv func(info *types.Info, call *ast.CallExpr, depth int) bool
+	readsTPEnv = func(info *types.Info, call *ast.CallExpr, depth int) bool {
 		cf := callee(info, call)
-		return cf != nil && cf.Name() == "applyTracerProviderEnvConfigs"
-	}, optCall)
+		if cf == nil {
+			return false
+		}
+		if cf.Name() == "applyTracerProviderEnvConfigs" || cf.Name() == "NewSpanLimits" {
+			return true
+		}
+		if depth >= 2 {
+			return false
+		}
+		d := tx.declByObj(cf)
+		if d == nil || d.Body() == nil {
+			return false
+		}
+		hit := false
+		inspectNoLit(d.Body(), func(n ast.Node) bool {
+			if c2, ok := n.(*ast.CallExpr); ok && readsTPEnv(info, c2, depth+1) {
+				hit = true
+			}
+			return true
+		})
+		return hit
+	}
+	envBefore(tx, "NewTracerProvider", func(info *types.Info, call *ast.CallExpr) bool { return readsTPEnv(info, call, 0) }, optCall)
 	envBefore(mx, "newPeriodicReaderConfig", func(info *types.Info, call *ast.CallExpr) bool {
 		cf := callee(info, call)
 		return cf != nil && cf.Name() == "envDuration"
